@@ -147,8 +147,8 @@ pub fn gbp(x: Rat) -> CurrencyAmount {
 
 pub const SEP_TICKER: &str = "ZZSEP";
 
-fn tick(s: &str, lower: bool) -> String {
-    if lower { s.to_lowercase() } else { s.to_string() }
+fn tick(s: &str, _lower: bool) -> String {
+    s.to_string()
 }
 
 /// Lines of one (security, day) cell in canonical order.
